@@ -426,6 +426,17 @@ def run(ctx):
     for f in ("iceII.cif", "acetic_acid.cif", "r3c_example.cif"):
         specs.append({"kind": "file", "path": TEST_FILES + f, "radii": [1.2, 3.8, 6.0, 12.0],
                       "queries": ["point", "atomic", "molecule"], "label": f})
+    # (2b) radius sweep: a dense ladder of radii (a short-range or long-range branch that switches at some multiple of a cell length or
+    # width has nowhere to hide between the four standard radii) - oblique cells, a hexagonal setting and the bundled structures, point queries
+    ladder = [round(0.55 + 0.1 * k, 2) for k in range(135)] if ctx.thorough else [round(0.7 + 0.45 * k, 2) for k in range(24)]
+    for ci, cell in enumerate(OBLIQUE):
+        if ctx.thorough or ci % 3 == 0:
+            specs.append({"kind": "atoms5", "number": 2, "choice": "", "cell": list(cell), "seed": seed, "radii": ladder,
+                          "queries": ["point"], "label": "atoms5:2::radius-ladder%s" % (cell[3:],)})
+    specs.append({"kind": "atoms5", "number": 148, "choice": "R", "cell": list(lattice.compatible_cells(148, "R")[1]), "seed": seed, "radii": ladder,
+                  "queries": ["point"], "label": "atoms5:148:R:radius-ladder"})
+    for f in ("iceII.cif", "acetic_acid.cif", "r3c_example.cif"):
+        specs.append({"kind": "file", "path": TEST_FILES + f, "radii": ladder, "queries": ["point"], "label": f + ":radius-ladder"})
     # (3) generated molecular crystals: molecule queries
     msett = [(1, ""), (2, ""), (14, "b1"), (15, "b1"), (19, ""), (33, ""), (61, ""), (148, "H"), (148, "R"), (176, "")]
     if ctx.thorough:
